@@ -14,6 +14,7 @@ import (
 
 	"github.com/saucelabs/forwarder/pac"
 	"github.com/saucelabs/forwarder/verifharness/lib"
+	"github.com/saucelabs/forwarder/verifharness/wiring"
 	"golang.org/x/net/dns/dnsmessage"
 )
 
@@ -508,6 +509,7 @@ func main() {
 	run.Floor("helper_probes", 200)
 	run.Floor("concurrent_list_answers_compared", 2000)
 	run.Floor("result_lists_parsed", 500)
+	wiring.Run(run, "C14")
 	run.Finish()
 }
 
